@@ -13,6 +13,9 @@ fn main() {
         usage();
     }
     let id = args[1].clone();
+    if id == "tool" {
+        std::process::exit(vplib::tools::main(&args[2..]));
+    }
     let mut tier = match std::env::var("VERIF_TIER").as_deref() {
         Ok("thorough") => Tier::Thorough,
         _ => Tier::Quick,
